@@ -103,7 +103,7 @@ fn run() {
                 maps.instruments = (0..n)
                     .map(|i| {
                         b.engine.state.instruments.0.values()
-                            .position(|s| s.instrument.name_internal.name().as_str() == format!("0_a{i}_usdt"))
+                            .position(|s| s.instrument.name_internal.name().as_str() == format!("a{i}_usdt_x0"))
                             .unwrap()
                     })
                     .collect();
